@@ -17,6 +17,7 @@ VERIF = os.environ.get("MUT_VERIF", "/verif")
 FILES = ["src/body.rs", "src/chunk.rs", "src/parser.rs", "src/ext.rs", "src/util.rs",
          "src/client/amended.rs", "src/client/call.rs", "src/client/flow.rs", "src/client/holder.rs"]
 PROPS = ["C%02d" % i for i in range(1, 21)]
+FIRST_ONLY = os.environ.get("MUT_FIRST_ONLY", "1") == "1"
 
 RULES = [
     (r"(?<![<>=!])<=(?!=)", "<", "le->lt"), (r"(?<![<>=!-])<(?![<=])", "<=", "lt->le"),
@@ -118,6 +119,14 @@ def main():
                         if pr.returncode != 0 or "VIOLATION" in o:
                             fired.append(p + ("n" if "no-failing-input-found" in o and o.count("VIOLATION") == o.count("no-failing-input-found") else ""))
                         del running[p]
+                if fired and FIRST_ONLY:
+                    # the campaign looks for survivors: one alarm is enough, stop the other checks
+                    for p, pr in running.items():
+                        pr.kill()
+                    for p, pr in running.items():
+                        pr.wait()
+                    running = {}
+                    pending = []
                 time.sleep(0.05)
             tests = "-"
             if not fired:
